@@ -155,6 +155,10 @@ func c06MapMonitorScenarios(tier string) []Scenario {
 	for i, how := range []string{"removed-by-host", "renamed-by-another-fid", "replaced-by-other-kind", "made-unreadable-dir-emptied"} {
 		out = append(out, c06UfsStale(how, i%2 == 0))
 	}
+	if tier == "thorough" {
+		// (each never-seen user id costs a look-up in the host's user database: minutes in all)
+		out = append(out, c06ManyUsers(70000))
+	}
 	for i, k := range []string{"readdir", "readfile", "stat", "walk"} {
 		out = append(out, c06BehindVersion(k, 300, 8216, i%2 == 0, D+1), c06BehindVersion(k, 8216, 300, i%2 == 1, D+1))
 	}
@@ -369,6 +373,76 @@ func c06BehindVersion(kind string, msize0, msize1 uint32, dotu bool, D int) Scen
 // by something of another kind - by another fid of the client or by the host, after the
 // fid was opened and partly read. Every sequence of up to three further requests on the
 // stale fid: the server answers (with errors, mostly) and stays up.
+// c06ManyUsers: a client may name any 32-bit user id in Tattach and Tauth, as often as it
+// likes. After n distinct ones (more than 2^16, more than any table of a plausible
+// size) the server still answers a stat and a directory read of files owned by a user
+// it has not looked up before, and nothing panics.
+func c06ManyUsers(n int) Scenario {
+	name := fmt.Sprintf("ufs after %d distinct user ids named in Tattach and Tauth", n)
+	return Scenario{Name: name, Run: func(rc *RunCtx) *Result {
+		res := &Result{Exhaustive: true}
+		base, root := scratchDir("c06u")
+		defer os.RemoveAll(base)
+		os.MkdirAll(filepath.Join(root, "d"), 0o755)
+		os.WriteFile(filepath.Join(root, "d", "f"), []byte("x"), 0o644)
+		os.Chown(filepath.Join(root, "d", "f"), 4242, 4243) // an owner nobody attached as
+		var bad string
+		body := func() {
+			h := newUfsH(root, 8216, true)
+			cl := h.Connect()
+			cl.Version(8216, "9P2000.u")
+			// (sent in batches: the requests do not depend on each other)
+			for i := 0; i < n; {
+				var batch []*wire.Msg
+				for k := 0; k < 500 && i < n; k, i = k+1, i+1 {
+					uid := uint32(100000 + i)
+					if i%2 == 0 {
+						batch = append(batch, &wire.Msg{Type: wire.Tauth, Tag: uint16(1000 + k), Afid: 9, Uname: "", Aname: "", NUname: uid, HasNUname: true})
+					} else {
+						batch = append(batch, tattach(uint16(1000+k), uint32(5000+k), wire.NOFID, "", uid, true), &wire.Msg{Type: wire.Tclunk, Tag: uint16(2000 + k), Fid: uint32(5000 + k)})
+					}
+					res.Evals++
+				}
+				cl.Send(true, batch...)
+				vs.Idle()
+			}
+			r := cl.Rpc(tattach(6, 0, wire.NOFID, "", 100001, true))
+			if r == nil || r.Type != wire.Rattach {
+				bad = fmt.Sprintf("an attach as a user named before is answered %v", r)
+				return
+			}
+			if r := cl.Rpc(twalk(6, 0, 2, "d", "f")); r == nil || r.Type != wire.Rwalk || len(r.Wqid) != 2 {
+				bad = fmt.Sprintf("walk answered %v", r)
+				return
+			}
+			if r := cl.Rpc(&wire.Msg{Type: wire.Tstat, Tag: 7, Fid: 2}); r == nil || r.Type != wire.Rstat || r.Stat.NUid != 4242 {
+				bad = fmt.Sprintf("Tstat of a file owned by uid 4242 is answered %v", r)
+				return
+			}
+			cl.Rpc(twalk(6, 0, 3, "d"))
+			cl.Rpc(&wire.Msg{Type: wire.Topen, Tag: 7, Fid: 3, Mode: 0})
+			if r := cl.Rpc(&wire.Msg{Type: wire.Tread, Tag: 7, Fid: 3, Offset: 0, Count: 4000}); r == nil || r.Type != wire.Rread || len(r.Data) == 0 {
+				bad = fmt.Sprintf("reading the directory is answered %v", r)
+			}
+		}
+		x := vs.Run(nil, body, vs.Options{Horizon: 2000000000})
+		res.Nontrivial = res.Evals
+		res.States = 1
+		res.Traces = 1
+		if len(x.Panics) > 0 {
+			p := x.Panics[0]
+			res.Findings = append(res.Findings, Finding{Sig: "C06/panic/" + p.Frame, Msg: "after " + fmt.Sprint(n) + " distinct user ids: server goroutine panicked: " + p.Value + "\n" + trimStack(p.Stack)})
+		} else if bad != "" {
+			res.Findings = append(res.Findings, Finding{Sig: "C06/many-users/" + sigWords(bad), Msg: bad})
+		}
+		if x.HitHorizon {
+			res.Exhaustive = false
+			res.CapHit = "step horizon"
+		}
+		return res
+	}}
+}
+
 func c06UfsStale(how string, dotu bool) Scenario {
 	name := fmt.Sprintf("ufs stale fid (%s) dotu=%v: every sequence of <= 3 requests on it", how, dotu)
 	return Scenario{Name: name, Run: func(rc *RunCtx) *Result {
